@@ -105,7 +105,7 @@ class Cls:
         """sync_flush_Nd_array(self.buff[: self.buffer_row], self.array, self.array_offset)"""
         if isinstance(st, ast.Expr) and isinstance(st.value, ast.Call):
             c = st.value
-            if src(c.func) in ("sync_flush_1d_array", "sync_flush_2d_array") and not c.keywords and len(c.args) == 3:
+            if src(c.func) in ("sync_flush_1d_array", "sync_flush_2d_array", getattr(self, "flush_alias", None)) and not c.keywords and len(c.args) == 3:
                 if [src(a) for a in c.args] == ["self.buff[:self.buffer_row]", "self.array", "self.array_offset"]:
                     return src(c.func)
                 raise Unsupported("flush helper arguments: " + src(c))
@@ -121,7 +121,7 @@ class Cls:
             if rest:
                 raise Unsupported("code after return")
             return f"(s, {self.expr(st.value, locs)}, ev)"
-        if isinstance(st, ast.Assign) and len(st.targets) == 1:
+        if isinstance(st, ast.Assign) and len(st.targets) == 1 and not isinstance(st.value, ast.IfExp):
             t = st.targets[0]
             if isinstance(t, ast.Attribute) and src(t.value) == "self" and t.attr in FIELDS:
                 return f"let s := set_{t.attr} s {self.expr(st.value, locs)} in\n  " + self.block(rest, locs, k)
@@ -140,6 +140,24 @@ class Cls:
         fl = self.is_flush_call(st)
         if fl:
             return "let ev := ev ++ [Write (array_offset s) (buffer_row s)] in\n  " + self.block(rest, locs, k)
+        if isinstance(st, ast.If) and not st.orelse and len(strip(st.body)) == 1 and isinstance(strip(st.body)[0], ast.Return) \
+                and strip(st.body)[0].value is None:
+            # guard clause:  if c: return   <rest>      ==   if c: pass else: <rest>      (methods without a result)
+            if k != "(s, ev)":
+                raise Unsupported("bare return in a method with a result")
+            return f"(if {self.cond(st.test, locs)} then (s, ev) else\n  {self.block(rest, locs, k)})"
+        if isinstance(st, ast.If) and src(st.test) == "len(self.array.chunks) <= 1" and len(strip(st.body)) == 1 and len(strip(st.orelse)) == 1:
+            a, b = strip(st.body)[0], strip(st.orelse)[0]
+            if isinstance(a, ast.Assign) and isinstance(b, ast.Assign) and src(a.targets[0]) == src(b.targets[0]) \
+                    and isinstance(a.targets[0], ast.Name) and src(a.value) == "sync_flush_1d_array" and src(b.value) == "sync_flush_2d_array":
+                # the 1-d / 2-d choice bound to a local name, called afterwards
+                self.flush_alias = a.targets[0].id
+                return self.block(rest, locs, k)
+        if isinstance(st, ast.Assign) and isinstance(st.targets[0], ast.Name) and isinstance(st.value, ast.IfExp) \
+                and src(st.value.test) == "len(self.array.chunks) <= 1" and src(st.value.body) == "sync_flush_1d_array" \
+                and src(st.value.orelse) == "sync_flush_2d_array":
+            self.flush_alias = st.targets[0].id
+            return self.block(rest, locs, k)
         if isinstance(st, ast.If):
             # the 1-d / 2-d dispatch: both arms are the flush helper on the same arguments
             if src(st.test) == "len(self.array.chunks) <= 1" and len(strip(st.body)) == 1 and len(strip(st.orelse)) == 1:
